@@ -1,4 +1,5 @@
 # C19 — every query terminates after any history
+import resource
 import vlib
 from checks.db_common import run_db
 
@@ -13,7 +14,9 @@ META = dict(
                "and rehash fuel = capacity + new capacity + 1, and keeps len = number of Valid slots < capacity; C19_step_bound (full) — the same as an inductive "
                "invariant from any table; C19_value_any_table / C19_values_any_table (full) — lookups need at most `capacity` iterations on every table whatsoever; "
                "C19_rehash_values_bound (full) — rehash_values terminates within its bound, keeps the number of Valid slots and leaves none beyond the new capacity "
-               "(preservation of the key->values multiset by rehash is NOT proved). C19_pinned_refuted: before fix fc221a8, 64 x {insert; remove} of distinct keys "
+               "; C19_rehash_preserves_entries / C19_rehash_in_place_preserves_entries (full for the multiset claim: for every predicate the number of stored "
+               "(key, value) pairs satisfying it is unchanged by grow / shrink / in-place rehash; that every pair is still FOUND by probing afterwards is NOT proved). "
+               "C19_pinned_refuted: before fix fc221a8, 64 x {insert; remove} of distinct keys "
                "leave no Empty slot and the next insert_or_replace runs out of EVERY fuel (the hang reproduced on the real database); C19_iter_pinned_refuted: the "
                "pinned MultiMapIterator yields the same value forever when it sits in the slot before the key's start slot of a table without Empty slot. "
                "The graph unlink loops and the search loops of a query are bounded by the lemmas of GraphProofs.v / TraverseProofs.v (C08, C14, C17), not here. "
@@ -32,8 +35,19 @@ CLASSES = ("timeout",)                  # a step that does not return within the
 COMMON = ("panic", "read-error")        # failures that are violations wherever they show up
 
 
+def _big_stack():
+    # the extracted model's searches recurse deeply on the large graphs of this profile (hundreds of elements):
+    # give the child processes (OCaml driver) a 4 GiB stack instead of reporting "ERROR stack overflow"
+    soft, hard = resource.getrlimit(resource.RLIMIT_STACK)
+    want = 4 << 30
+    new = want if hard == resource.RLIM_INFINITY else min(want, hard)
+    if soft != resource.RLIM_INFINITY and soft < new:
+        resource.setrlimit(resource.RLIMIT_STACK, (new, hard))
+
+
 def run(ctx):
-    n, steps, wd = (40, 400, 2000) if ctx.tier == "quick" else (500, 3000, 5000)
+    _big_stack()
+    n, steps, wd = (40, 400, 2000) if ctx.tier == "quick" else (300, 2000, 5000)
     r = run_db(ctx, PROFILE, n, steps, watchdog_ms=wd)
     failures = [f for f in r["failures"] if f["cls"].startswith(CLASSES) or f["cls"] in COMMON]
     notes = []
